@@ -316,6 +316,12 @@ func c8Exec(t *testing.T, ops []string, o *vu.Out) {
 				sched = NewRoundRobinWriteScheduler
 			case "p9218":
 				sched = NewPriorityWriteSchedulerRFC9218
+			case "p7540":
+				sched = func() WriteScheduler { return NewPriorityWriteScheduler(nil) }
+			case "p7540t":
+				sched = func() WriteScheduler {
+					return NewPriorityWriteScheduler(&PriorityWriteSchedulerConfig{MaxClosedNodesInTree: 3, MaxIdleNodesInTree: 3, ThrottleOutOfOrderWrites: true})
+				}
 			case "default":
 			default:
 				o.Op(op, "bad-op")
@@ -432,7 +438,8 @@ func c8Exec(t *testing.T, ops []string, o *vu.Out) {
 				}
 			}
 		case "hdr":
-			if len(f) != 2 {
+			// hdr <sid> [<dep> <weight-1> <exclusive>]: request HEADERS, optionally with RFC 7540 priority
+			if len(f) != 2 && len(f) != 5 {
 				valid = false
 				break
 			}
@@ -441,6 +448,16 @@ func c8Exec(t *testing.T, ops []string, o *vu.Out) {
 				valid = false
 				break
 			}
+			var prio PriorityParam
+			if len(f) == 5 {
+				dep, w := vu.Atoi64(f[2]), vu.Atoi64(f[3])
+				if dep < 0 || dep > 1<<31-1 || w < 0 || w > 255 || uint32(dep) == sid || (f[4] != "0" && f[4] != "1") {
+					valid = false
+					break
+				}
+				prio = PriorityParam{StreamDep: uint32(dep), Weight: uint8(w), Exclusive: f[4] == "1"}
+				o.Stat("branch:hdr-with-priority")
+			}
 			if c.streams[sid] != nil || sid < c.maxSid {
 				c.obs = append(c.obs, "skip")
 				break
@@ -448,7 +465,7 @@ func c8Exec(t *testing.T, ops []string, o *vu.Out) {
 			c.maxSid = sid
 			s := &c8Stream{id: sid, win: c.initWin, open: true}
 			c.streams[sid] = s
-			c.st.writeHeaders(HeadersFrameParam{StreamID: sid, BlockFragment: c.st.encodeHeader(), EndStream: true, EndHeaders: true})
+			c.st.writeHeaders(HeadersFrameParam{StreamID: sid, BlockFragment: c.st.encodeHeader(), EndStream: true, EndHeaders: true, Priority: prio})
 			synctest.Wait()
 			c.st.callsMu.Lock()
 			if len(c.st.calls) > 0 {
@@ -456,6 +473,19 @@ func c8Exec(t *testing.T, ops []string, o *vu.Out) {
 				c.st.calls = c.st.calls[1:]
 			}
 			c.st.callsMu.Unlock()
+			c.settle()
+		case "prio":
+			// prio <sid> <dep> <weight-1> <exclusive>: PRIORITY frame (any stream, idle ones included)
+			if len(f) != 5 {
+				valid = false
+				break
+			}
+			sid, dep, w := vu.Atoi64(f[1]), vu.Atoi64(f[2]), vu.Atoi64(f[3])
+			if sid < 1 || sid > 1<<31-1 || dep < 0 || dep > 1<<31-1 || dep == sid || w < 0 || w > 255 || (f[4] != "0" && f[4] != "1") {
+				valid = false
+				break
+			}
+			c.st.writePriority(uint32(sid), PriorityParam{StreamDep: uint32(dep), Weight: uint8(w), Exclusive: f[4] == "1"})
 			c.settle()
 		case "prst":
 			if len(f) != 2 {
@@ -621,7 +651,33 @@ func c8PickIW(r *vu.Rng) int64 {
 func c8Gen(r *vu.Rng, i int) []string {
 	var ops []string
 	add := func(format string, a ...any) { ops = append(ops, fmt.Sprintf(format, a...)) }
-	add("reset %s", []string{"default", "rr", "p9218"}[r.Intn(3)])
+	sched := []string{"default", "rr", "p9218", "p7540", "p7540", "p7540t"}[r.Intn(6)]
+	add("reset %s", sched)
+	prioHeavy := strings.HasPrefix(sched, "p7540") || r.Chance(1, 4)
+	// RFC 7540 priority parameters: dependency on root, a live/closed/idle stream; weights from a small pool
+	// with distinct values so that sibling weights differ on several levels of the tree
+	pickPrio := func(self int, known []int) (int, int, int) {
+		dep := 0
+		switch k := r.Intn(10); {
+		case k < 3 || len(known) == 0:
+		case k < 9:
+			dep = known[r.Intn(len(known))]
+		default:
+			dep = self + 2*r.Range(1, 4) // an idle stream
+		}
+		if dep == self {
+			dep = 0
+		}
+		w := []int{0, 1, 9, 15, 99, 199, 254, 255}[r.Intn(8)]
+		if r.Chance(1, 4) {
+			w = r.Intn(256)
+		}
+		ex := 0
+		if r.Chance(1, 8) {
+			ex = 1
+		}
+		return dep, w, ex
+	}
 	conn, initWin, maxFrame := int64(65535), int64(65535), int64(16384)
 	var streams []*c8gs
 	dead := false
@@ -723,9 +779,30 @@ func c8Gen(r *vu.Rng, i int) []string {
 	openStream := func() *c8gs {
 		s := &c8gs{id: nextID, win: initWin, open: true, handler: true}
 		nextID += 2
+		var known []int
+		for _, x := range streams {
+			known = append(known, x.id)
+		}
 		streams = append(streams, s)
-		add("hdr %d", s.id)
+		if prioHeavy && r.Chance(3, 4) {
+			dep, w, ex := pickPrio(s.id, known)
+			add("hdr %d %d %d %d", s.id, dep, w, ex)
+		} else {
+			add("hdr %d", s.id)
+		}
 		return s
+	}
+	prioOp := func() {
+		var known []int
+		for _, x := range streams {
+			known = append(known, x.id)
+		}
+		sid := nextID + 2*r.Intn(3) // mostly existing streams, sometimes an idle one
+		if len(known) > 0 && r.Chance(5, 6) {
+			sid = known[r.Intn(len(known))]
+		}
+		dep, w, ex := pickPrio(sid, known)
+		add("prio %d %d %d %d", sid, dep, w, ex)
 	}
 	pick := func() *c8gs {
 		var live []*c8gs
@@ -858,7 +935,22 @@ func c8Gen(r *vu.Rng, i int) []string {
 	if !dead {
 		openStream()
 	}
+	if prioHeavy && !dead && r.Chance(1, 2) {
+		// a burst of concurrent streams up front: a deeper dependency tree before any window opens
+		for n := r.Range(2, 4); n > 0 && len(streams) < c8MaxStreams; n-- {
+			openStream()
+		}
+		if r.Chance(1, 2) {
+			for _, s := range streams {
+				write(s)
+			}
+		}
+	}
 	for j := 0; j < steps && !dead; j++ {
+		if prioHeavy && r.Chance(1, 10) {
+			prioOp()
+			continue
+		}
 		switch k := r.Intn(100); {
 		case k < 34:
 			write(pick())
